@@ -113,3 +113,61 @@ Proof. vm_compute. reflexivity. Qed.
 Lemma prog_match_old_first_arm_fine :
   exists tr, run_fn 5 (erase prog_match_old) (fe_of prog_match_old) 0 [0%nat] = Fin 0 tr [] true.
 Proof. eexists. vm_compute. reflexivity. Qed.
+
+(* prog_rec       fn cnt(x){ self + x }  fn r(n){ if (n > 0.0) { r(n - 1.0) + cnt(1.0) } else { 0.0 } }  fn dsp(){ r(2.0) }
+   (current compiler).  The recursive call r(n - 1.0) is compiled while r's skeleton is still empty, so it gets no cell of
+   its own: every recursion depth runs cnt(1.0) on the SAME Feed cell.  All accesses hit published cells (C05 holds, the
+   checker accepts) but cells are shared between call depths: the strict checker refuses the program. *)
+Definition prog_rec : rprog :=
+  [ {| rf_skel := FnCall []; rf_blocks := [[(Some 25, RReturn)]] |};
+    {| rf_skel := FnCall [Feed 1]; rf_blocks := [[(Some 0, RGetState 1); (Some 4, RReturnFeed 1)]] |};
+    (* r *) {| rf_skel := FnCall [FnCall [Feed 1]];
+               rf_blocks := [[(Some 8, RJmpIf 1 2 3)];
+                             [(Some 12, RUinteger 2); (Some 13, RCall (CReg 12)); (Some 15, RUinteger 1);
+                              (Some 16, RCall (CReg 15)); (None, RPush 1)];
+                             [(None, RPush 1)];
+                             [(None, RPop 1); (Some 20, RReturn)]] |};
+    (* dsp *) {| rf_skel := FnCall [FnCall [FnCall [Feed 1]]];
+                 rf_blocks := [[(Some 22, RUinteger 2); (Some 23, RCall (CReg 22)); (Some 24, RReturn)]] |} ].
+
+Lemma prog_rec_accepted : check_rprog prog_rec = true.
+Proof. vm_compute. reflexivity. Qed.
+
+Lemma prog_rec_not_strict : check_prog_strict (erase prog_rec) = false.
+Proof. vm_compute. reflexivity. Qed.
+
+(* two recursion depths (oracle: then, then, else): the one Feed cell is read and written twice *)
+Lemma prog_rec_shares :
+  run_fn 9 (erase prog_rec) (dsp_of prog_rec) 0 [0%nat; 0%nat; 1%nat] =
+  Fin 0 [ {| a_kind := KGet; a_pos := 0; a_size := 1 |}; {| a_kind := KSet; a_pos := 0; a_size := 1 |};
+          {| a_kind := KGet; a_pos := 0; a_size := 1 |}; {| a_kind := KSet; a_pos := 0; a_size := 1 |} ] [] true.
+Proof. vm_compute. reflexivity. Qed.
+
+Lemma prog_if_strict : check_prog_strict (erase prog_if) = true.
+Proof. vm_compute. reflexivity. Qed.
+
+Lemma prog_match_strict : check_prog_strict (erase prog_match) = true.
+Proof. vm_compute. reflexivity. Qed.
+
+(* prog_generic_self   fn f(x){ self }  fn dsp(){ let t = f((1.0, 2.0))  1.0 }     (current compiler; finding F64)
+   The instance of f at argument type (number, number) publishes a one-word Feed cell — mirgen's Expr::Feed sizes the cell
+   while the type of `self` is still a type variable — but its GetState / ReturnFeed move the two words of the resolved type. *)
+Definition prog_generic_self : rprog :=
+  [ {| rf_skel := FnCall []; rf_blocks := [[(Some 18, RReturn)]] |};
+    (* f *) {| rf_skel := FnCall [Feed 1]; rf_blocks := [[(Some 0, RGetState 1); (Some 2, RReturnFeed 1)]] |};
+    (* dsp *) {| rf_skel := FnCall [FnCall [Feed 1]];
+                 rf_blocks := [[(Some 12, RUinteger 3); (Some 13, RCall (CReg 12)); (Some 17, RReturn)]] |};
+    (* f_mono_tup_num_num_tup_num_num *)
+    {| rf_skel := FnCall [Feed 1]; rf_blocks := [[(Some 0, RGetState 2); (Some 2, RReturnFeed 2)]] |} ].
+
+Definition dsp2_of (rp : rprog) : func := nth 2 (erase rp) {| f_skel := FnCall []; f_blocks := [] |}.
+
+Lemma prog_generic_self_rejected : check_rprog prog_generic_self = false.
+Proof. vm_compute. reflexivity. Qed.
+
+(* dsp's whole storage is one word; the call reads and writes two *)
+Lemma prog_generic_self_out_of_bounds :
+  size (f_skel (dsp2_of prog_generic_self)) = 1 /\
+  run_fn 5 (erase prog_generic_self) (dsp2_of prog_generic_self) 0 [] =
+  Fin 0 [ {| a_kind := KGet; a_pos := 0; a_size := 2 |}; {| a_kind := KSet; a_pos := 0; a_size := 2 |} ] [] true.
+Proof. split; vm_compute; reflexivity. Qed.
